@@ -363,6 +363,309 @@ static int print_f(void (*printchar_handler)(void *d, int c),
 
     return pc;
 }
+
+/**
+ * Decimal floating conversions: f, e, g and their upper-case forms.
+ *
+ * A finite double is m * 2^e exactly. For the digits the directive asks for,
+ * N = round(|r| * 10^s) is computed as a multi-word integer (multiply by the
+ * power of ten, shift by the binary exponent, divide by the power of ten when
+ * s is negative), so the printed digits are the correctly rounded decimal
+ * digits of the argument (ties away from zero) whatever its magnitude, and
+ * every buffer has a fixed bound. At most PRINT_FDEC_PREC_MAX digits are
+ * computed after the point (f) or after the first digit (e, g); a larger
+ * precision is completed with zeros.
+ */
+#define PRINT_FDEC_PREC_MAX 40
+#define PRINT_FDEC_LIMBS 44 /* 1408 bits: 2^1024 * 10^41 and 2^53 * 10^366 */
+#define PRINT_FDEC_DIGITS                                                      \
+    352 /* 309 integer digits of DBL_MAX + PRINT_FDEC_PREC_MAX + carry */
+
+struct print_fdec_big
+{
+    uint32_t w[PRINT_FDEC_LIMBS]; /* least significant limb first */
+    int n;                        /* limbs in use */
+};
+
+static void print_fdec_mul(struct print_fdec_big *a, uint32_t k)
+{
+    uint64_t carry = 0;
+    int i;
+    for (i = 0; i < a->n; ++i)
+    {
+        uint64_t cur = (uint64_t)a->w[i] * k + carry;
+        a->w[i] = (uint32_t)cur;
+        carry = cur >> 32;
+    }
+    if (carry && a->n < PRINT_FDEC_LIMBS)
+        a->w[a->n++] = (uint32_t)carry;
+}
+
+static uint32_t print_fdec_div(struct print_fdec_big *a, uint32_t k)
+{
+    uint64_t rem = 0;
+    int i;
+    for (i = a->n - 1; i >= 0; --i)
+    {
+        uint64_t cur = (rem << 32) | a->w[i];
+        a->w[i] = (uint32_t)(cur / k);
+        rem = cur % k;
+    }
+    while (a->n > 0 && a->w[a->n - 1] == 0)
+        a->n--;
+    return (uint32_t)rem;
+}
+
+/* N = round(m * 2^e * 10^s), ties away from zero. Writes the decimal digits
+ * of N backwards from end and returns how many there are (none for N = 0). */
+static int print_fdec_digits(uint64_t m, int e, int s, char *end)
+{
+    static const uint32_t pow10[] = {1,      10,      100,      1000,      10000,
+                                     100000, 1000000, 10000000, 100000000, 1000000000};
+    struct print_fdec_big a;
+    char *p = end;
+    int k = s + 1; /* one digit more: it decides the rounding */
+    int i;
+
+    a.n = 0;
+    if (m)
+    {
+        a.w[0] = (uint32_t)m;
+        a.w[1] = (uint32_t)(m >> 32);
+        a.n = a.w[1] ? 2 : 1;
+    }
+
+    for (i = k; i > 0; i -= 9)
+        print_fdec_mul(&a, pow10[MIN(i, 9)]);
+    for (i = e; i > 0; i -= 31)
+        print_fdec_mul(&a, (uint32_t)1 << MIN(i, 31));
+    for (i = -e; i > 0; i -= 31)
+        print_fdec_div(&a, (uint32_t)1 << MIN(i, 31));
+    for (i = -k; i > 0; i -= 9)
+        print_fdec_div(&a, pow10[MIN(i, 9)]);
+
+    if (print_fdec_div(&a, 10) >= 5)
+    {
+        for (i = 0; i < a.n && ++a.w[i] == 0; ++i)
+            ;
+        if (i == a.n && a.n < PRINT_FDEC_LIMBS)
+            a.w[a.n++] = 1;
+    }
+
+    while (a.n)
+    {
+        uint32_t chunk = print_fdec_div(&a, 1000000000);
+        for (i = 0; i < 9 && (a.n || chunk); ++i)
+        {
+            *--p = (char)('0' + chunk % 10);
+            chunk /= 10;
+        }
+    }
+    return (int)(end - p);
+}
+
+static int print_fdec(void (*printchar_handler)(void *d, int c),
+                      void *printchar_data,
+                      long double lr,
+                      int width,
+                      int precision,
+                      unsigned int ops,
+                      int with_exp,
+                      int is_shortened)
+{
+    char digits[PRINT_FDEC_DIGITS], *dend = digits + sizeof digits, *d;
+    char expbuf[8], *ex = expbuf + sizeof expbuf;
+    const char *prefix, *special = NULL;
+    double r = (double)lr;
+    uint64_t bits, m;
+    int e, X = 0, L, sc, pc = 0, i;
+    int prefix_len, int_len, int_zeros = 0, lead_zeros, frac_len, tail_zeros;
+    int exp_len = 0, point, zero_pad = 0, pad_count, len;
+
+    prefix = signbit(r)                    ? "-"
+             : ops & OPS_FLAG_WITH_SIGN   ? "+"
+             : ops & OPS_FLAG_EXTRA_SPACE ? " "
+                                          : "";
+    prefix_len = (int)strlen(prefix);
+
+    if (isnan(r))
+        special = ops & OPS_SPEC_UPPER_CASE ? "NAN" : "nan";
+    else if (isinf(r))
+        special = ops & OPS_SPEC_UPPER_CASE ? "INF" : "inf";
+    if (special)
+    {
+        pad_count = MAX(width - prefix_len - 3, 0);
+        if (!(ops & OPS_FLAG_LEFT_ALIGN))
+            for (i = 0; i < pad_count; ++i, ++pc)
+                printchar_handler(printchar_data, ' ');
+        for (; *prefix; ++prefix, ++pc)
+            printchar_handler(printchar_data, *prefix);
+        for (; *special; ++special, ++pc)
+            printchar_handler(printchar_data, *special);
+        if (ops & OPS_FLAG_LEFT_ALIGN)
+            for (i = 0; i < pad_count; ++i, ++pc)
+                printchar_handler(printchar_data, ' ');
+        return pc;
+    }
+
+    /* |r| = m * 2^e */
+    memcpy(&bits, &r, sizeof bits);
+    e = (int)((bits >> 52) & 0x7ff);
+    m = bits & (((uint64_t)1 << 52) - 1);
+    if (e)
+        m |= (uint64_t)1 << 52;
+    else
+        e = 1;
+    e -= 1075;
+
+    if (!(ops & OPS_PREC_IS_GIVEN))
+        precision = PRINT_F_PREC_DEFAULT;
+    if (is_shortened && precision == 0)
+        precision = 1;
+
+    if (with_exp || is_shortened)
+    {
+        /* p digits after the first one; find the decimal exponent X of the
+         * rounded value: N must have exactly p + 1 digits */
+        int p = MIN(is_shortened ? precision - 1 : precision,
+                    PRINT_FDEC_PREC_MAX);
+        if (m == 0)
+        {
+            L = p + 1;
+            memset(dend - L, '0', (size_t)L);
+        }
+        else
+        {
+            int t, nb = 0;
+            for (bits = m; bits; bits >>= 1)
+                ++nb;
+            t = (e + nb - 1) * 1233; /* floor(log2 |r|) * log10(2) */
+            X = t >= 0 ? t / 4096 : -((4095 - t) / 4096);
+            for (;;)
+            {
+                L = print_fdec_digits(m, e, p - X, dend);
+                if (L > p + 1)
+                    ++X;
+                else if (L < p + 1)
+                    --X;
+                else
+                    break;
+            }
+        }
+        if (is_shortened && X >= -4 && X < precision)
+        {
+            with_exp = 0;
+            sc = p - X;
+            precision = precision - 1 - X;
+        }
+        else
+        {
+            with_exp = 1;
+            sc = p;
+            precision = is_shortened ? precision - 1 : precision;
+        }
+    }
+    else
+    {
+        sc = MIN(precision, PRINT_FDEC_PREC_MAX);
+        L = print_fdec_digits(m, e, sc, dend);
+    }
+    d = dend - L;
+
+    /* layout: int_len digits of d (or a single 0) and int_zeros zeros, then
+     * lead_zeros zeros, frac_len digits of d and tail_zeros zeros */
+    if (with_exp)
+    {
+        int_len = 1;
+        lead_zeros = 0;
+        frac_len = L - 1;
+    }
+    else if (sc < 0)
+    {
+        int_len = L;
+        int_zeros = -sc;
+        lead_zeros = 0;
+        frac_len = 0;
+    }
+    else
+    {
+        int_len = MAX(L - sc, 0);
+        lead_zeros = MAX(sc - L, 0);
+        frac_len = MIN(L, sc);
+    }
+    tail_zeros = precision - lead_zeros - frac_len;
+
+    if (is_shortened && !(ops & OPS_FLAG_WITH_SPEC))
+    {
+        /* trailing zeros of the fraction are removed */
+        tail_zeros = 0;
+        while (frac_len && d[int_len + frac_len - 1] == '0')
+            --frac_len;
+        if (!frac_len)
+            lead_zeros = 0;
+    }
+    point = lead_zeros + frac_len + tail_zeros > 0 ||
+            (ops & OPS_FLAG_WITH_SPEC);
+
+    if (with_exp)
+    {
+        int ax = X < 0 ? -X : X;
+        do
+        {
+            *--ex = (char)('0' + ax % 10);
+            ax /= 10;
+        } while (ax);
+        if (expbuf + sizeof expbuf - ex < 2)
+            *--ex = '0';
+        *--ex = X < 0 ? '-' : '+';
+        *--ex = ops & OPS_SPEC_UPPER_CASE ? 'E' : 'e';
+        exp_len = (int)(expbuf + sizeof expbuf - ex);
+    }
+
+    len = prefix_len + (int_len ? int_len : 1) + int_zeros + (point ? 1 : 0) +
+          lead_zeros + frac_len + tail_zeros + exp_len;
+    pad_count = MAX(width - len, 0);
+    if ((ops & OPS_FLAG_ZERO_PAD) && !(ops & OPS_FLAG_LEFT_ALIGN))
+    {
+        zero_pad = pad_count;
+        pad_count = 0;
+    }
+
+    if (!(ops & OPS_FLAG_LEFT_ALIGN))
+        for (i = 0; i < pad_count; ++i, ++pc)
+            printchar_handler(printchar_data, ' ');
+    for (; *prefix; ++prefix, ++pc)
+        printchar_handler(printchar_data, *prefix);
+    for (i = 0; i < zero_pad; ++i, ++pc)
+        printchar_handler(printchar_data, '0');
+    if (!int_len)
+    {
+        printchar_handler(printchar_data, '0');
+        ++pc;
+    }
+    for (i = 0; i < int_len; ++i, ++pc)
+        printchar_handler(printchar_data, d[i]);
+    for (i = 0; i < int_zeros; ++i, ++pc)
+        printchar_handler(printchar_data, '0');
+    if (point)
+    {
+        printchar_handler(printchar_data, '.');
+        ++pc;
+    }
+    for (i = 0; i < lead_zeros; ++i, ++pc)
+        printchar_handler(printchar_data, '0');
+    for (i = 0; i < frac_len; ++i, ++pc)
+        printchar_handler(printchar_data, d[int_len + i]);
+    for (i = 0; i < tail_zeros; ++i, ++pc)
+        printchar_handler(printchar_data, '0');
+    for (i = 0; i < exp_len; ++i, ++pc)
+        printchar_handler(printchar_data, ex[i]);
+    if (ops & OPS_FLAG_LEFT_ALIGN)
+        for (i = 0; i < pad_count; ++i, ++pc)
+            printchar_handler(printchar_data, ' ');
+
+    return pc;
+}
 #else
 static int print_f(void (*printchar_handler)(struct printchar_handler_data *d,
                                              int c),
@@ -377,6 +680,7 @@ static int print_f(void (*printchar_handler)(struct printchar_handler_data *d,
 {
     return print_s(printchar_handler, printchar_data, "%f", 0, 0, 0);
 }
+#define print_fdec(h, d, r, w, p, o, e, g) print_f(h, d, r, w, p, o, 10, e, g)
 #endif
 
 int __printf(void (*printchar_handler)(void *d, int c),
@@ -571,15 +875,25 @@ int __printf(void (*printchar_handler)(void *d, int c),
         case 'A':
             tmp.ld = ops & OPS_LEN_LONGFP ? va_arg(args, long double)
                                           : va_arg(args, double);
-            pc += print_f(printchar_handler,
-                          printchar_data,
-                          tmp.ld,
-                          width,
-                          precision,
-                          ops,
-                          tolower(*format) == 'a' ? 16 : 10,
-                          tolower(*format) == 'e' || tolower(*format) == 'a',
-                          tolower(*format) == 'g');
+            if (tolower(*format) == 'a')
+                pc += print_f(printchar_handler,
+                              printchar_data,
+                              tmp.ld,
+                              width,
+                              precision,
+                              ops,
+                              16,
+                              1,
+                              0);
+            else
+                pc += print_fdec(printchar_handler,
+                                 printchar_data,
+                                 tmp.ld,
+                                 width,
+                                 precision,
+                                 ops,
+                                 tolower(*format) == 'e',
+                                 tolower(*format) == 'g');
             break;
         case 'c':
             /* TODO handle (ops & OPS_LEN_LONG) for wint_t */
